@@ -427,3 +427,95 @@ func runCallArgsGuarded(c *core.Ctx) {
 	}
 	c.Floor("indexes into the arguments of a call expression on the serving side", n, 2)
 }
+
+// runNoMustOnWireData (C15): panicking constructors (regexp.MustCompile, regexp.MustCompilePOSIX, influxql.MustParse*,
+// template.Must) are applied only to constants in the packages that serve requests of other nodes: applied to a decoded
+// value they turn a malformed request into a crash of the node.
+func runNoMustOnWireData(c *core.Ctx) {
+	constSites, n := 0, 0
+	for _, rel := range []string{"query", coord, "models", "tsdb", tsm1, metap, hhp, "storage/reads", "services/storage"} {
+		for _, g := range c.P.FuncsIn(rel) {
+			if g.Body == nil {
+				continue
+			}
+			info := g.Info()
+			for _, e := range g.Graph().Events {
+				if e.Kind != core.EvCall || e.Call == nil {
+					continue
+				}
+				name := core.CalleeName(e)
+				if !(strings.HasPrefix(name, "regexp.MustCompile") || strings.Contains(name, "influxql.MustParse") || name == "text/template.Must" || name == "html/template.Must") {
+					continue
+				}
+				allConst := len(e.Call.Args) > 0
+				for _, a := range e.Call.Args {
+					if tv := info.Types[a]; tv.Value == nil {
+						allConst = false
+					}
+				}
+				if allConst {
+					constSites++
+					continue
+				}
+				n++
+				c.Check("no-panicking-constructor-on-decoded-data", fmt.Sprintf("%s/%s#%d", g.Root().Name, short(name), n), c.P.Pos(e.Pos()), false,
+					name+" is applied to a value that is not a constant in a package that serves requests of other nodes: for a value decoded from a request that does not compile it panics in the connection handler's goroutine and the node goes down")
+			}
+		}
+	}
+	// package-level initialisers are not in any function body: count them for matcher liveness
+	for _, rel := range []string{"query", "tsdb", "tsdb/index/tsi1"} {
+		if pkg := c.P.ByPath[rel]; pkg != nil {
+			for _, file := range pkg.Syntax {
+				ast.Inspect(file, func(nd ast.Node) bool {
+					if _, ok := nd.(*ast.FuncDecl); ok {
+						return false
+					}
+					if ce, ok := nd.(*ast.CallExpr); ok {
+						if fn, ok := core.Callee(pkg.TypesInfo, ce).(*types.Func); ok && fn.Pkg() != nil && fn.Pkg().Path() == "regexp" && strings.HasPrefix(fn.Name(), "MustCompile") {
+							constSites++
+						}
+					}
+					return true
+				})
+			}
+		}
+	}
+	c.Counts["must_constructor_sites_on_constants"] = constSites
+	c.Floor("panicking constructors on constants (matcher liveness)", constSites, 2)
+}
+
+// runResponseCarriesHandlerError (C15): in the connection dispatcher a reply helper that is given an error (…Response(conn,
+// err)) is given the error of the request's processing call, on every path - not the (nil) error of the frame read that
+// preceded it.
+func runResponseCarriesHandlerError(c *core.Ctx) {
+	f := c.Fn(coord + ".(*Service).handleConn")
+	info := f.Info()
+	n := 0
+	for _, e := range f.Graph().Events {
+		if e.Kind != core.EvCall || e.Call == nil {
+			continue
+		}
+		fn, ok := e.Callee.(*types.Func)
+		if !ok || !strings.HasSuffix(fn.Name(), "Response") {
+			continue
+		}
+		for _, a := range e.Call.Args {
+			t := info.TypeOf(a)
+			if t == nil || !types.Identical(t, types.Universe.Lookup("error").Type()) {
+				continue
+			}
+			n++
+			fact := f.Flow().FactOfExpr(e, a)
+			good := false
+			if ce, ok := fact.Def.(*ast.CallExpr); ok {
+				if pf, ok := core.Callee(info, ce).(*types.Func); ok && strings.HasPrefix(pf.Name(), "process") {
+					good = true
+				}
+			}
+			c.Check("reply-carries-the-processing-error", fmt.Sprintf("%s/%s#%d", f.Name, fn.Name(), n), c.P.Pos(e.Pos()), good,
+				"the error handed to the reply helper is not (on every path) the result of the request's process* call: a request that failed on this node is acknowledged as successful")
+		}
+	}
+	c.Floor("reply helpers given an error in handleConn", n, 1)
+}
